@@ -787,23 +787,22 @@ class Mailbox:
                 #
                 if not self.executing_tasks:
                     async with self.mailbox.lock_folder():
-                        changed = await self.check_new_msgs_and_flags()
+                        await self.check_new_msgs_and_flags()
 
-                    # Need to update this command's msg_set_as_set before we
-                    # add it to the list of executing commands (the list is
-                    # empty so we only need to update this one command)
-                    #
-                    if changed:
-                        try:
-                            imap_cmd.msg_set_as_set = (
-                                self.msg_set_to_msg_seq_set(
-                                    imap_cmd.msg_set, imap_cmd.uid_command
-                                )
-                            )
-                        except Bad as exc:
-                            imap_cmd.error = exc
-                            imap_cmd.ready.set()
-                            continue
+                # While this command was waiting for conflicting commands to
+                # finish (an EXPUNGE for example), or due to the resync, the
+                # messages in the mailbox may have changed. The message
+                # sequence numbers computed above may no longer be the ones
+                # its message set denotes, so compute them again.
+                #
+                try:
+                    imap_cmd.msg_set_as_set = self.msg_set_to_msg_seq_set(
+                        imap_cmd.msg_set, imap_cmd.uid_command
+                    )
+                except Bad as exc:
+                    imap_cmd.error = exc
+                    imap_cmd.ready.set()
+                    continue
 
                 self.executing_tasks.append(imap_cmd)
                 imap_cmd.ready.set()
